@@ -19,6 +19,7 @@ for every α, make the bracket of T₀ negative; the real code then raises
 import EPV.Gen.Cog14D
 import EPV.Spec.Euler1D
 import EPV.Lemmas.Euler1Db
+import EPV.Lemmas.HydroRobust
 import EPV.Tactics
 
 set_option linter.all false
@@ -36,19 +37,19 @@ theorem cog14_mass (p : Cog14.P) (r t : ℝ) (hr : 0 < r) :
       = ((-(p.geometry - 1)) - ((((p.geometry - 1) - 1) - (p.alpha * (p.geometry - 1))) / (((2 : ℝ) + p.alpha) - ((2 : ℝ) * (p.beta + 4)))))
           * Cog14.L0.density p r t / r := by
     unfold dr
-    rw [(Cog14.L0.density_hasDerivAt_r p r t hr).deriv]
+    epv_hydro_rw_derivs [Cog14.L0.density_hasDerivAt_r p r t]
     simp only [epv_deriv, epv_leaf]
     ring
   have hur : dr (Cog14.L0.velocity p) r t
       = ((((p.geometry - 1) - 1) - (p.alpha * (p.geometry - 1))) / (((2 : ℝ) + p.alpha) - ((2 : ℝ) * (p.beta + 4))))
           * Cog14.L0.velocity p r t / r := by
     unfold dr
-    rw [(Cog14.L0.velocity_hasDerivAt_r p r t hr).deriv]
+    epv_hydro_rw_derivs [Cog14.L0.velocity_hasDerivAt_r p r t]
     simp only [epv_deriv, epv_leaf]
     ring
   have hρt : dt (Cog14.L0.density p) r t = 0 := by
     unfold dt
-    rw [(Cog14.L0.density_hasDerivAt_t p r t).deriv]
+    epv_hydro_rw_derivs [Cog14.L0.density_hasDerivAt_t p r t]
     simp only [epv_deriv]
   unfold massRes
   rw [hρr, hur, hρt]
@@ -62,22 +63,22 @@ theorem cog14_momentum (p : Cog14.P) (r t : ℝ) (hwd : Cog14.L0.WellDefined p r
   obtain ⟨b, hbeq, hbne⟩ := exists_eq_of_ne hb
   have hρr : dr (Cog14.L0.density p) r t = ((-(p.geometry - 1)) - b) * Cog14.L0.density p r t / r := by
     unfold dr
-    rw [(Cog14.L0.density_hasDerivAt_r p r t hr).deriv]
+    epv_hydro_rw_derivs [Cog14.L0.density_hasDerivAt_r p r t]
     simp only [epv_deriv, epv_leaf, ← hbeq]
     ring
   have hur : dr (Cog14.L0.velocity p) r t = b * Cog14.L0.velocity p r t / r := by
     unfold dr
-    rw [(Cog14.L0.velocity_hasDerivAt_r p r t hr).deriv]
+    epv_hydro_rw_derivs [Cog14.L0.velocity_hasDerivAt_r p r t]
     simp only [epv_deriv, epv_leaf, ← hbeq]
     ring
   have hTr : dr (Cog14.L0.temperature p) r t = (2 * b) * Cog14.L0.temperature p r t / r := by
     unfold dr
-    rw [(Cog14.L0.temperature_hasDerivAt_r p r t hr).deriv]
+    epv_hydro_rw_derivs [Cog14.L0.temperature_hasDerivAt_r p r t]
     simp only [epv_deriv, epv_leaf, ← hbeq]
     ring
   have hut : dt (Cog14.L0.velocity p) r t = 0 := by
     unfold dt
-    rw [(Cog14.L0.velocity_hasDerivAt_t p r t).deriv]
+    epv_hydro_rw_derivs [Cog14.L0.velocity_hasDerivAt_t p r t]
     simp only [epv_deriv]
   -- u² = Γ T (k - b)/b  (the square of the coded square root)
   have hu2 : Cog14.L0.velocity p r t ^ 2 * b
@@ -126,17 +127,17 @@ theorem cog14_energy (p : Cog14.P) (r t : ℝ) (hwd : Cog14.L0.WellDefined p r t
   rw [hq]
   have hur : dr (Cog14.L0.velocity p) r t = b * Cog14.L0.velocity p r t / r := by
     unfold dr
-    rw [(Cog14.L0.velocity_hasDerivAt_r p r t hr).deriv]
+    epv_hydro_rw_derivs [Cog14.L0.velocity_hasDerivAt_r p r t]
     simp only [epv_deriv, epv_leaf, ← hbeq]
     ring
   have hTr : dr (Cog14.L0.temperature p) r t = (2 * b) * Cog14.L0.temperature p r t / r := by
     unfold dr
-    rw [(Cog14.L0.temperature_hasDerivAt_r p r t hr).deriv]
+    epv_hydro_rw_derivs [Cog14.L0.temperature_hasDerivAt_r p r t]
     simp only [epv_deriv, epv_leaf, ← hbeq]
     ring
   have hTt : dt (Cog14.L0.temperature p) r t = 0 := by
     unfold dt
-    rw [(Cog14.L0.temperature_hasDerivAt_t p r t).deriv]
+    epv_hydro_rw_derivs [Cog14.L0.temperature_hasDerivAt_t p r t]
     simp only [epv_deriv]
   unfold energyHydroT
   rw [hur, hTr, hTt]
